@@ -619,11 +619,20 @@ func WindowWhen[T, B any](boundary Observable[B]) func(Observable[T]) Observable
 		return NewObservableWithContext(func(subscriberCtx context.Context, destination Observer[Observable[T]]) Teardown {
 			var window Subject[T]
 
+			var done bool // the last window has been closed: no new window may be opened
+
 			mu := xsync.MutexWithSpinlock{}
 
 			flush := func(ctx context.Context, skipNew bool) {
 				// reset Observable even if no notification were sent
 				mu.Lock()
+
+				if done {
+					// a boundary racing with the end of the stream must not open a
+					// window that nobody will ever close
+					mu.Unlock()
+					return
+				}
 
 				tmp := window
 
@@ -631,6 +640,8 @@ func WindowWhen[T, B any](boundary Observable[B]) func(Observable[T]) Observable
 				if !skipNew {
 					newSubject = NewUnicastSubject[T](UnicastSubjectUnlimitedBufferSize)
 					window = newSubject
+				} else {
+					done = true
 				}
 
 				mu.Unlock()
